@@ -388,59 +388,49 @@ theorem negSys_wf : WF negSys := by
       · simp [negSys, h0, h1] at hp
 
 /-
-Full-strength statement — FALSE on the current code for eps > 0:
-  theorem maxmin_var_bounds_eps (S) (hwf : WF S) (eps) (h0 : 0 ≤ eps) (val0 fuel st)
-      (h : maxminSolve S eps fuel val0 = some st) :
-      ∀ c ∈ S.active, ∀ e ∈ (S.cnst c).elems, 0 < e.2 → 0 ≤ st.value e.1
-The test `double_equals(min_bound, var.bound_ * var.sharing_penalty_, precision)` of the `while` loop is also evaluated
-for variables WITHOUT a bound (`bound_ = -1`): when `min_bound + penalty < precision` it holds and the variable gets
-`value_ = bound_ = -1`.  Fix proposed in props/C15/proposed_fix.diff (`var.bound_ > 0 &&`); with it (model:
-`fixLoop`, add `0 < V.bound ∧` to the `dblEq` test) no variable can get a negative rate.
+"Every rate is in [0, bound]" at a positive precision.  Before the fix of `maxmin-precision-bound-test-unbounded-variable`
+this was FALSE: the test `double_equals(min_bound, var.bound_ * var.sharing_penalty_, precision)` of the `while` loop was
+also evaluated for variables WITHOUT a bound (`bound_ = -1`): when `min_bound + penalty < precision` it held and the variable
+got `value_ = bound_ = -1`.  The test is now `var.bound_ > 0 && double_equals(…)` (model: `fixLoop`,
+`decide (0 < V.bound) && dblEq …`) and no variable can get a negative rate: `maxmin_var_bounds_eps` below.
 -/
 
-/-- **counterexample to "every rate is ≥ 0" at the default precision 10⁻⁵** (kernel evaluation; replayed on the real
-library: corpus case `epsN`, finding `maxmin-precision-bound-test-unbounded-variable`): the unbounded variable v1 is
-"fixed at its bound" −1.  In exact arithmetic it gets 3/4. -/
-theorem maxmin_var_bounds_eps_counterexample :
-    ∃ st, maxminSolve negSys (1 / 100000) 4 (fun _ => 0) = some st ∧ st.value 1 = -1 := by
-  have h : (maxminSolve negSys (1 / 100000) 4 (fun _ => 0)).map (fun st => (st.value 0, st.value 1)) = some (1 / 4, -1) := by
+/-- **Regression: the witness of the fixed defect `maxmin-precision-bound-test-unbounded-variable`** at the default precision
+10⁻⁵ (kernel evaluation; corpus case `epsN` on the real library): capacity 1 shared by v0 (penalty 2⁻²⁰, bound 1/4) and v1
+(penalty 2⁻²⁰, no bound).  Without the guard the unbounded variable v1 was "fixed at its bound" −1; it now gets 3/4, as in
+exact arithmetic. -/
+theorem maxmin_var_bounds_eps_regression :
+    ∃ st, maxminSolve negSys (1 / 100000) 4 (fun _ => 0) = some st ∧ st.value 0 = 1 / 4 ∧ st.value 1 = 3 / 4 := by
+  have h : (maxminSolve negSys (1 / 100000) 4 (fun _ => 0)).map (fun st => (st.value 0, st.value 1)) = some (1 / 4, 3 / 4) := by
     decide +kernel
   cases hs : maxminSolve negSys (1 / 100000) 4 (fun _ => 0) with
   | none => rw [hs] at h; simp at h
   | some st =>
-    rw [hs] at h; simp at h
-    exact ⟨st, rfl, h.2⟩
+    rw [hs] at h
+    simp only [Option.map_some, Option.some.injEq, Prod.mk.injEq] at h
+    exact ⟨st, rfl, h.1, h.2⟩
 
 example : (maxminSolve negSys 0 4 (fun _ => 0)).map (fun st => (st.value 0, st.value 1)) = some (1 / 4, 3 / 4) := by
   decide +kernel
 
-/-- **`maxmin_var_bounds_eps_partial`: what survives at a positive precision.**  For every precision `0 ≤ eps < 1` and
-every well-formed system (SHARED, FATPIPE, variable bounds) in which no variable *without* bound can pass the
-`double_equals` test of the bound round — `hnb`: `eps ≤ -(bound_·penalty)` for the variables with `bound_ ≤ 0`, i.e.
-`eps ≤ penalty` for the API's `bound_ = -1`; exactly the case excluded by `maxmin_var_bounds_eps_counterexample`, and no
-longer needed once props/C15/proposed_fix.diff is applied — every rate `maxmin_solve` returns is in [0, bound].
-(Invariant `PInv`, Lmm/Eps.lean: the light table only holds active constraints with remaining_ > 0 and usage_ > 0, so
-min_usage > 0.)  The capacity clause has no such version: `maxmin_feasible_eps_counterexample`. -/
-theorem maxmin_var_bounds_eps_partial (S : Sys) (hwf : WF S) (eps : Rat) (h0 : 0 ≤ eps) (h1 : eps < 1)
-    (hnb : ∀ v, 0 < (S.var v).penalty → (S.var v).bound ≤ 0 → eps ≤ -((S.var v).bound * (S.var v).penalty))
+/-- **`maxmin_var_bounds_eps`: what survives at a positive precision.**  For every precision `0 ≤ eps < 1` (the configured
+`sg_precision_workamount` is 10⁻⁵) and EVERY well-formed system (SHARED, FATPIPE, variable bounds, any penalties) every rate
+`maxmin_solve` returns is in [0, bound] — in particular no rate is negative.  Promoted from `maxmin_var_bounds_eps_partial`,
+which carried the hypothesis `hnb` (`eps ≤ -(bound_·penalty)` for the variables with `bound_ ≤ 0`, i.e. `eps ≤ penalty` for
+the API's `bound_ = -1`): exactly the case of `maxmin_var_bounds_eps_regression`, excluded by the guard `var.bound_ > 0 &&`
+since the fix.  (Invariant `PInv`, Lmm/Eps.lean: the light table only holds active constraints with remaining_ > 0 and
+usage_ > 0, so min_usage > 0.)  The capacity clause has no such version: `maxmin_feasible_eps_counterexample`. -/
+theorem maxmin_var_bounds_eps (S : Sys) (hwf : WF S) (eps : Rat) (h0 : 0 ≤ eps) (h1 : eps < 1)
     (val0 : Nat → Rat) (fuel : Nat) (st : St) (h : maxminSolve S eps fuel val0 = some st) :
     ∀ c ∈ S.active, ∀ e ∈ (S.cnst c).elems,
       0 ≤ st.value e.1 ∧ (0 < (S.var e.1).bound → st.value e.1 ≤ (S.var e.1).bound) :=
-  maxmin_var_bounds_eps_wf S hwf eps h0 h1 hnb val0 fuel st h
+  maxmin_var_bounds_eps_wf S hwf eps h0 h1 val0 fuel st h
 
-/-- non-vacuity at the default precision: `exSys` (penalties 1, 1, 2) meets `hnb`, and the solver returns -/
-example : (∀ v, 0 < (exSys.var v).penalty → (exSys.var v).bound ≤ 0 →
-      (1 / 100000 : Rat) ≤ -((exSys.var v).bound * (exSys.var v).penalty)) ∧
-    (maxminSolve exSys (1 / 100000) 4 (fun _ => 0)).isSome = true := by
-  refine ⟨?_, by decide +kernel⟩
-  intro v hp hb
-  by_cases h0 : v = 0
-  · subst h0; simp [exSys] at hb; norm_num at hb
-  · by_cases h1 : v = 1
-    · subst h1; simp [exSys]; norm_num
-    · by_cases h2 : v = 2
-      · subst h2; simp [exSys]; norm_num
-      · simp [exSys, h0, h1, h2] at hp
+/-- non-vacuity at the default precision: `exSys` and `negSys` (penalties 2⁻²⁰ < eps, an unbounded variable: the case
+the old hypothesis excluded) are well-formed and the solver returns -/
+example : (maxminSolve exSys (1 / 100000) 4 (fun _ => 0)).isSome = true ∧
+    (maxminSolve negSys (1 / 100000) 4 (fun _ => 0)).isSome = true := by
+  refine ⟨by decide +kernel, by decide +kernel⟩
 
 /-! ### BMF: the acceptance predicate implies the property (Eigen's fixed point is not modelled) -/
 
